@@ -302,6 +302,8 @@ def run(ctx):
     msrc, swspecs = g9prog.switch_matrix_program()
     nsw = len(swspecs)
     progs.append(("det:switch-matrix", msrc, {}))
+    # every composite-literal form over structs whose field names differ only in the case of the first letter
+    progs.append(("det:struct-literals", g9prog.struct_literal_program(), {}))
     # every statement-kind template once, whatever the seed
     ksrc, kfeat = g9prog.statement_kinds_program(vlib.SplitMix(0xC01))
     progs.append(("det:statement-kinds", ksrc, kfeat))
@@ -368,17 +370,22 @@ def run(ctx):
         pid = ids[n]
         src = progs[int(n[1:])][1]
         cv, detail = clv.get(n, ("missing", ""))
+        if cv == "invalid-go":
+            # go/types rejects the generated SOURCE: a generator bug, the program is not used (counted, reported)
+            outcome["discarded:not-valid-go"] = outcome.get("discarded:not-valid-go", 0) + 1
+            ctx.notes.setdefault("discarded_programs", []).append({"id": pid, "go_types": detail[:200]})
+            continue
         key = pid.split(":", 1)[1] if pid.startswith("witness:") else "src:" + vlib.sha(src)
         kind = "same"
         if cv != "ok" and ra[0] == "nobinary":
-            kind = "generator-bug"          # the source does not build as Go either: not a valid Go program
-            ctx.broken("generator(c01)", "%s is rejected by cl (%s) and does not build as Go: %s" % (pid, detail[:200], build_out[:400]))
+            kind = "discarded:go-build-fails"    # go/types accepted it but `go build` does not: not used
+            ctx.notes.setdefault("discarded_programs", []).append({"id": pid, "go_build": build_out[:300]})
         elif cv != "ok":
             kind = "xgo-compile-" + cv
             ctx.fail(key, "%s: valid Go program rejected when compiled as XGo (%s): %s" % (pid, cv, detail[:300]), {"go_source": src, "cl": detail})
-        elif ra[0] == "nobinary" and rb[0] == "nobinary":
-            kind = "go-build-failed-both"      # the generator produced invalid Go: not a property failure, but the machinery is broken
-            ctx.broken("generator(c01)", "%s does not build as Go: %s" % (pid, build_out[:600]))
+        elif ra[0] == "nobinary":
+            kind = "discarded:go-build-fails"  # the source itself does not build with the Go toolchain: not a valid Go program
+            ctx.notes.setdefault("discarded_programs", []).append({"id": pid, "go_build": build_out[:300]})
         elif ra[0] == "nobinary" or rb[0] == "nobinary":
             kind = "build-differs"
             ctx.fail(key, "%s: builds as %s but not as %s: %s" % (pid, "Go" if rb[0] == "nobinary" else "XGo", "XGo" if rb[0] == "nobinary" else "Go", build_out[:500]),
@@ -411,13 +418,16 @@ def run(ctx):
               samples=[{"decls": pairs[1][1], "impl": proj[1]}] + samples,
               rule="norm K-diff: %d declaration lists (1 fixed + seeded: 0-2 struct types with grouped fields, 1-5 package-level variables, "
                    "1-4 functions referring to arbitrary variables, shuffled; %d of them are reordered by load order); behavioural "
-                   "differential: %d programs (%d deterministic: the witness of the known finding, two hand-written ones, the exhaustive switch matrix "
+                   "differential: %d programs (every generated source is first checked with go/types and discarded if it is not valid Go; %d deterministic: the "
+                   "witness of the known finding, two hand-written ones, the struct-literal matrix (keyed / unkeyed / elided / pointer / slice / array / map "
+                   "key and value / nested / anonymous / package-level literals over structs whose field names differ only in the case of the first letter, "
+                   "both declaration orders, embedded structs with promoted fields, all fields printed), the exhaustive switch matrix "
                    "(110 switch functions: 1-3 cases x default first/middle/last/absent x every fallthrough subset x tagged/tagless, each run on "
                    "every selecting value) and one program with every statement-kind template; + %d seeded typed programs, %d-%d "
                    "source lines; statement kinds: see statement_kind_histogram) each built as Go and as XGo and run; non-trivial = distinct program with >= 3 output lines and identical "
                    "behaviour. The generator does not emit functions that refer to package-level variables declared later (known finding "
                    "var-init-order), nor the constructs listed in the CLAIM note."
-                   % (len(pairs), reordered, len(progs), len(DET_PROGRAMS) + 2, nprog,
+                   % (len(pairs), reordered, len(progs), len(DET_PROGRAMS) + 3, nprog,
                       min(len(p[1].splitlines()) for p in progs), max(len(p[1].splitlines()) for p in progs)),
               explanation="kernel theorem on MiniGo normalisations + K-diff of declaration order / field splitting + build-and-run differential",
               outcome_histogram=outcome, feature_histogram=feats, programs=len(progs),
